@@ -132,6 +132,21 @@ check('C18', 'parties', 'exploration',
       'Trusted: the canonical form (engines/sqlgen.py). Both oracles are model-free (real twin / before-after digests).',
       'DESIGN.md §4 C18')
 
+check('C01', 'storedisk', 'exploration',
+      'deterministic simulation: seeded API histories with checkpoint / crash / restart on a simulated disk below the real io '
+      'stack (short writes and reads, random buffer sizes, crash at the n-th raw write, ENOSPC/EIO), reference model that never '
+      'restarts, fixed-point check over two restarts',
+      'Histories of the store engine over exotic value alphabets and keyword identifiers are interrupted by checkpoints through '
+      'each of the six serialization routes (serialize_database, the three serialize parts, persist_database, the three persist '
+      'parts in separate files or appended to one file, serialize() dispatch) and restarts through filename_input, file_input, '
+      'input and load_metamodel in a seeded file order. After an acknowledged checkpoint + restart the rebuilt metamodel must '
+      'equal the reference in classes and attribute types, associations, identifiers, instance order and values (six-decimal '
+      'reals, unset = null) and link pairs; checkpoint - restart - checkpoint must reproduce the text. A checkpoint hit by a crash '
+      'or I/O error is unacknowledged: its torn file must load or be rejected with ParsingException, and the run goes on in memory.',
+      STORE_NOTE + ' Persistable domain = states whose referential values resolve (the join of the format reproduces the links); '
+      'checkpoints of other states are skipped and counted. The variant without CREATE TABLE statements is not compared. One known '
+      'finding (carriage returns through text-mode file routes) is listed in known_findings.json.', 'DESIGN.md §4 C01')
+
 
 def build():
     sys.path.insert(0, HERE)
@@ -181,7 +196,7 @@ def build():
 
 if __name__ == '__main__':
     # pending properties are claimed in DESIGN.md but their check is not committed yet
-    for pid in ('C01',):
+    for pid in ():
         PENDING[pid] = 'simulation target per DESIGN.md; check under construction and not claimed until it is committed'
     doc = build()
     with open(os.path.join(HERE, 'MANIFEST.json'), 'w') as f:
